@@ -4,6 +4,7 @@
 //
 //	ammo <fmt> <file>                      real http ammo provider on arbitrary bytes, up to 24 deliveries
 //	pfx  <fmt> <file> <ngood> <tokens...>  file = render(tokens, final newline) ++ malformed tail
+//	trunc <fmt> <file> <ngood> <tokens...> file = render(tokens, final newline) ++ one more well-formed entry cut short
 //	hostile <inner case...>                the inner case in a subprocess under `ulimit -v` (absurd sizes / counts)
 //	shoot <text>                           config.ParseShootName
 //	conv <http|grpc> <shoot>...            scenario NewProvider on a generated YAML, request list of the scenario
@@ -405,7 +406,7 @@ func ints(fs []string) []int64 {
 func runCase(c string) string {
 	f := strings.Split(c, " ")
 	switch f[0] {
-	case "ammo", "pfx":
+	case "ammo", "pfx", "trunc":
 		return a07ammo.RunProvider(decoderName(f[1]), vh.UnHex(f[2]), acquireN, 0, 0)
 	case "hostile":
 		return hostileCase(strings.Join(f[1:], " "))
